@@ -158,7 +158,8 @@ var allowedFns = map[string]bool{
 	"(net/http.Header).Add": true, "(net/http.Header).Values": true, "(net/http.Header).Del": true,
 	"net/textproto.CanonicalMIMEHeaderKey": true, "(net/textproto.MIMEHeader).Get": true,
 	"(net/textproto.MIMEHeader).Set": true, "(net/textproto.MIMEHeader).Add": true, "(net/textproto.MIMEHeader).Values": true,
-	"(*net/http.Request).Context": true, "(*net/http.Request).UserAgent": true,
+	"(*net/http.Request).Context": true, "(*net/http.Request).PathValue": true, "(*net/http.Request).SetPathValue": true,
+	"(*net/http.Request).patIndex": true, "(*net/http.Request).UserAgent": true,
 	"(os.FileMode).IsRegular": true, "(os.FileMode).IsDir": true, "(io/fs.FileMode).IsRegular": true, "(io/fs.FileMode).IsDir": true,
 	"(io/fs.FileMode).Type": true, "(io/fs.FileMode).Perm": true,
 	"(crypto/subtle).ConstantTimeCompare": true, "crypto/subtle.ConstantTimeCompare": true, "crypto/subtle.ConstantTimeByteEq": true,
